@@ -1190,34 +1190,31 @@ theorem key_toKC (bidir isType : Bool) (k' : PyVal) (x : Change) : (toKC bidir i
   rw [toKC_consC]; rfl
 
 set_option maxHeartbeats 2000000 in
-/-- **one level of the round trip**: given the round trip of every shared key's child, the four phases applied to the
-first dictionary give a dictionary `==` the second -/
-theorem level_apply (bidir : Bool) (kvs1 kvs2 : List (PyVal × PyVal)) (hk : FlatKeys kvs1 kvs2)
+/-- **one level of the round trip**, for any lists of shared, added and removed keys: given the round trip of every shared
+key's child, the four phases applied to the first dictionary give a dictionary `==` the second -/
+theorem level_apply_gen (bidir : Bool) (kvs1 kvs2 : List (PyVal × PyVal))
     (hs1 : StrKeys kvs1) (hs2 : StrKeys kvs2) (hn1 : (kvs1.map (·.1)).Nodup) (hn2 : (kvs2.map (·.1)).Nodup)
     (hr1 : ∀ k, pyEq (valAt kvs1 k) (valAt kvs1 k) = true) (hr2 : ∀ k, pyEq (valAt kvs2 k) (valAt kvs2 k) = true)
+    (L added removed : List PyVal) (hLn : L.Nodup) (hAn : added.Nodup) (hRn : removed.Nodup)
+    (hLm : ∀ k, k ∈ L ↔ k ∈ kvs1.map (·.1) ∧ k ∈ kvs2.map (·.1))
+    (hAm : ∀ k, k ∈ added ↔ k ∈ kvs2.map (·.1) ∧ k ∉ kvs1.map (·.1))
+    (hRmm : ∀ k, k ∈ removed ↔ k ∈ kvs1.map (·.1) ∧ k ∉ kvs2.map (·.1))
     (VCk TCk : PyVal → List Change) (DAk DRk : PyVal → List (DPath × PyVal))
-    (hda : ∀ k ∈ interK kvs1 kvs2, ∀ e ∈ DAk k, e.1 ≠ []) (hdr : ∀ k ∈ interK kvs1 kvs2, ∀ e ∈ DRk k, e.1 ≠ [])
+    (hda : ∀ k ∈ L, ∀ e ∈ DAk k, e.1 ≠ []) (hdr : ∀ k ∈ L, ∀ e ∈ DRk k, e.1 ≠ [])
     (ys : List (DPath × PyVal))
-    (hys : ys.Perm ((removedK kvs1 kvs2).map (fun k => (([k] : DPath), valAt kvs1 k)) ++
-                    (interK kvs1 kvs2).flatMap (fun k => (DRk k).map (consP k))))
-    (hchild : ∀ k ∈ interK kvs1 kvs2, ∀ ysk, ysk.Perm (DRk k) →
+    (hys : ys.Perm (removed.map (fun k => (([k] : DPath), valAt kvs1 k)) ++ L.flatMap (fun k => (DRk k).map (consP k))))
+    (hchild : ∀ k ∈ L, ∀ ysk, ysk.Perm (DRk k) →
       ∃ r, run4 bidir (VCk k) (TCk k) (DAk k) ysk (valAt kvs1 k) = some r ∧ pyEq r (valAt kvs2 k) = true) :
-    ∃ r, run4 bidir ((interK kvs1 kvs2).flatMap (fun k => (VCk k).map (consC k)))
-        ((interK kvs1 kvs2).flatMap (fun k => (TCk k).map (consC k)))
-        ((addedK kvs1 kvs2).map (fun k => (([k] : DPath), valAt kvs2 k)) ++ (interK kvs1 kvs2).flatMap (fun k => (DAk k).map (consP k)))
+    ∃ r, run4 bidir (L.flatMap (fun k => (VCk k).map (consC k))) (L.flatMap (fun k => (TCk k).map (consC k)))
+        (added.map (fun k => (([k] : DPath), valAt kvs2 k)) ++ L.flatMap (fun k => (DAk k).map (consP k)))
         ys (.dict kvs1) = some r ∧ pyEq r (.dict kvs2) = true := by
-  generalize hL : interK kvs1 kvs2 = L at *
-  generalize hAd : addedK kvs1 kvs2 = added at *
-  generalize hRm : removedK kvs1 kvs2 = removed at *
-  have hLm : ∀ k, k ∈ L ↔ k ∈ kvs1.map (·.1) ∧ k ∈ kvs2.map (·.1) := by rw [← hL]; exact hk.mem_inter
-  have hAm : ∀ k, k ∈ added ↔ k ∈ kvs2.map (·.1) ∧ k ∉ kvs1.map (·.1) := by rw [← hAd]; exact hk.mem_added
-  have hRmm : ∀ k, k ∈ removed ↔ k ∈ kvs1.map (·.1) ∧ k ∉ kvs2.map (·.1) := by rw [← hRm]; exact hk.mem_removed
-  have hLn : L.Nodup := by rw [← hL]; exact hk.nd_inter
-  have hAn : added.Nodup := by rw [← hAd]; exact hk.nd_added
-  have hRn : removed.Nodup := by rw [← hRm]; exact hk.nd_removed
-  have hLs : ∀ k ∈ L, ∃ s, k = .str s := fun k hkL => hk.str1 k ((hLm k).1 hkL).1
-  have hAs : ∀ k ∈ added, ∃ s, k = .str s := fun k hkA => hk.str2 k ((hAm k).1 hkA).1
-  have hRs : ∀ k ∈ removed, ∃ s, k = .str s := fun k hkR => hk.str1 k ((hRmm k).1 hkR).1
+  have hstr1 : ∀ k ∈ kvs1.map (·.1), ∃ s, k = .str s := by
+    intro k hk; obtain ⟨p, hp', rfl⟩ := List.mem_map.1 hk; exact hs1 p hp'
+  have hstr2 : ∀ k ∈ kvs2.map (·.1), ∃ s, k = .str s := by
+    intro k hk; obtain ⟨p, hp', rfl⟩ := List.mem_map.1 hk; exact hs2 p hp'
+  have hLs : ∀ k ∈ L, ∃ s, k = .str s := fun k hkL => hstr1 k ((hLm k).1 hkL).1
+  have hAs : ∀ k ∈ added, ∃ s, k = .str s := fun k hkA => hstr2 k ((hAm k).1 hkA).1
+  have hRs : ∀ k ∈ removed, ∃ s, k = .str s := fun k hkR => hstr1 k ((hRmm k).1 hkR).1
   -- the lists
   let VC := L.flatMap (fun k => (VCk k).map (consC k))
   let TC := L.flatMap (fun k => (TCk k).map (consC k))
@@ -1449,6 +1446,24 @@ theorem level_apply (bidir : Bool) (kvs1 kvs2 : List (PyVal × PyVal)) (hk : Fla
   rw [h] at hf
   have hfe : fin = dictGet kvs' k := Option.some.inj hf
   exact ⟨fun x hx => h1 x (by rw [hfe, hx]), fun hnone => h2 (by rw [hfe, hnone])⟩
+
+/-- the instance for the key lists of the diff -/
+theorem level_apply (bidir : Bool) (kvs1 kvs2 : List (PyVal × PyVal)) (hk : FlatKeys kvs1 kvs2)
+    (hs1 : StrKeys kvs1) (hs2 : StrKeys kvs2) (hn1 : (kvs1.map (·.1)).Nodup) (hn2 : (kvs2.map (·.1)).Nodup)
+    (hr1 : ∀ k, pyEq (valAt kvs1 k) (valAt kvs1 k) = true) (hr2 : ∀ k, pyEq (valAt kvs2 k) (valAt kvs2 k) = true)
+    (VCk TCk : PyVal → List Change) (DAk DRk : PyVal → List (DPath × PyVal))
+    (hda : ∀ k ∈ interK kvs1 kvs2, ∀ e ∈ DAk k, e.1 ≠ []) (hdr : ∀ k ∈ interK kvs1 kvs2, ∀ e ∈ DRk k, e.1 ≠ [])
+    (ys : List (DPath × PyVal))
+    (hys : ys.Perm ((removedK kvs1 kvs2).map (fun k => (([k] : DPath), valAt kvs1 k)) ++
+                    (interK kvs1 kvs2).flatMap (fun k => (DRk k).map (consP k))))
+    (hchild : ∀ k ∈ interK kvs1 kvs2, ∀ ysk, ysk.Perm (DRk k) →
+      ∃ r, run4 bidir (VCk k) (TCk k) (DAk k) ysk (valAt kvs1 k) = some r ∧ pyEq r (valAt kvs2 k) = true) :
+    ∃ r, run4 bidir ((interK kvs1 kvs2).flatMap (fun k => (VCk k).map (consC k)))
+        ((interK kvs1 kvs2).flatMap (fun k => (TCk k).map (consC k)))
+        ((addedK kvs1 kvs2).map (fun k => (([k] : DPath), valAt kvs2 k)) ++ (interK kvs1 kvs2).flatMap (fun k => (DAk k).map (consP k)))
+        ys (.dict kvs1) = some r ∧ pyEq r (.dict kvs2) = true :=
+  level_apply_gen bidir kvs1 kvs2 hs1 hs2 hn1 hn2 hr1 hr2 _ _ _ hk.nd_inter hk.nd_added hk.nd_removed hk.mem_inter hk.mem_added
+    hk.mem_removed VCk TCk DAk DRk hda hdr ys hys hchild
 
 /-- the payload of one level in terms of the payloads of the children (no shortcut) -/
 theorem dict_payload {cfg : DCfg} (hp : Diff.Plain cfg) (al : Align) (hashOf : PyVal → String) (directed always : Bool)
@@ -1761,7 +1776,8 @@ items are made of string keys -/
 theorem J_tree_facts {cfg : DCfg} (hp : Diff.Plain cfg) (al : Align) (hashOf : PyVal → String) :
     ∀ (n : Nat) (a b : PyVal), sizeOf a ≤ n → J cfg.ignorePrivate a → J cfg.ignorePrivate b →
       (∀ e ∈ (diffV cfg al hashOf [] a b).tree, e.1 = .typeChanges ∨ e.1 = .valuesChanged ∨ e.1 = .dictAdded ∨ e.1 = .dictRemoved) ∧
-      (∀ e ∈ catMap .dictRemoved plainF (diffV cfg al hashOf [] a b).tree, ∀ k ∈ e.1, ∃ s, k = .str s) := by
+      (∀ e ∈ catMap .dictRemoved plainF (diffV cfg al hashOf [] a b).tree, ∀ k ∈ e.1, ∃ s, k = .str s) ∧
+      (∀ e ∈ catMap .dictAdded plainF (diffV cfg al hashOf [] a b).tree, ∀ k ∈ e.1, ∃ s, k = .str s) := by
   intro n
   induction n with
   | zero => intro a b h; have := sizeOf_pos a; omega
@@ -1794,28 +1810,41 @@ theorem J_tree_facts {cfg : DCfg} (hp : Diff.Plain cfg) (al : Align) (hashOf : P
           rw [show [dstep k] = [dstep k] ++ [] from rfl, hsh] at hek'
           obtain ⟨e0, he0, rfl⟩ := List.mem_map.1 hek'
           exact (hchild k hk).1 e0 he0
-      · obtain ⟨_, _, _, hR⟩ := dict_payload hp al hashOf false false kvs1 kvs2 ja jb hthr
-        simp only at hR
-        rw [hR]
-        intro e he k' hk'
-        rcases List.mem_append.1 he with h | h
-        · obtain ⟨k, hkr, rfl⟩ := List.mem_map.1 h
-          simp only [List.mem_singleton] at hk'
-          rw [hk']
-          exact hfk.str1 k ((hfk.mem_removed k).1 hkr).1
-        · obtain ⟨k, hk, h'⟩ := List.mem_flatMap.1 h
-          obtain ⟨x, hx, rfl⟩ := List.mem_map.1 h'
-          simp only [consP, List.mem_cons] at hk'
-          rcases hk' with rfl | hk'
-          · exact hfk.str1 k' ((hfk.mem_inter k').1 hk).1
-          · exact (hchild k hk).2 x hx k' hk'
-    · rw [h]; exact ⟨by intro e he; simp at he, by intro e he; simp [catMap] at he⟩
+      · obtain ⟨_, _, hA, hR⟩ := dict_payload hp al hashOf false false kvs1 kvs2 ja jb hthr
+        simp only at hR hA
+        rw [hR, hA]
+        constructor
+        · intro e he k' hk'
+          rcases List.mem_append.1 he with h | h
+          · obtain ⟨k, hkr, rfl⟩ := List.mem_map.1 h
+            simp only [List.mem_singleton] at hk'
+            rw [hk']
+            exact hfk.str1 k ((hfk.mem_removed k).1 hkr).1
+          · obtain ⟨k, hk, h'⟩ := List.mem_flatMap.1 h
+            obtain ⟨x, hx, rfl⟩ := List.mem_map.1 h'
+            simp only [consP, List.mem_cons] at hk'
+            rcases hk' with rfl | hk'
+            · exact hfk.str1 k' ((hfk.mem_inter k').1 hk).1
+            · exact (hchild k hk).2.1 x hx k' hk'
+        · intro e he k' hk'
+          rcases List.mem_append.1 he with h | h
+          · obtain ⟨k, hkr, rfl⟩ := List.mem_map.1 h
+            simp only [List.mem_singleton] at hk'
+            rw [hk']
+            exact hfk.str2 k ((hfk.mem_added k).1 hkr).1
+          · obtain ⟨k, hk, h'⟩ := List.mem_flatMap.1 h
+            obtain ⟨x, hx, rfl⟩ := List.mem_map.1 h'
+            simp only [consP, List.mem_cons] at hk'
+            rcases hk' with rfl | hk'
+            · exact hfk.str1 k' ((hfk.mem_inter k').1 hk).1
+            · exact (hchild k hk).2.2 x hx k' hk'
+    · rw [h]; exact ⟨by intro e he; simp at he, by intro e he; simp [catMap] at he, by intro e he; simp [catMap] at he⟩
     · rw [h]
-      refine ⟨by intro e he; simp at he; rw [he]; exact Or.inr (Or.inl rfl), ?_⟩
-      intro e he; simp [catMap] at he
+      refine ⟨by intro e he; simp at he; rw [he]; exact Or.inr (Or.inl rfl), ?_, ?_⟩ <;>
+        (intro e he; simp [catMap] at he)
     · rw [h]
-      refine ⟨by intro e he; simp at he; rw [he]; exact Or.inl rfl, ?_⟩
-      intro e he; simp [catMap] at he
+      refine ⟨by intro e he; simp at he; rw [he]; exact Or.inl rfl, ?_, ?_⟩ <;>
+        (intro e he; simp [catMap] at he)
 
 
 /-- `deepDiff` of two nested dictionaries: the tree of `diffV`, no opcodes -/
@@ -1840,7 +1869,7 @@ theorem nested_roundtrip (cfg : DCfg) (hp : Diff.Plain cfg) (al : Align) (hashOf
     ∃ r, applyDelta bidir (buildDelta directed always v1 v2 (deepDiff cfg al hashOf v1 v2)) v1 = { root := r } ∧ pyEq r v2 = true := by
   rw [J_deepDiff hp al hashOf v1 v2 j1 j2]
   generalize hT : (diffV cfg al hashOf [] v1 v2).tree = T
-  obtain ⟨hcats, hstrs⟩ := J_tree_facts hp al hashOf (sizeOf v1) v1 v2 (Nat.le_refl _) j1 j2
+  obtain ⟨hcats, hstrs, _⟩ := J_tree_facts hp al hashOf (sizeOf v1) v1 v2 (Nat.le_refl _) j1 j2
   rw [hT] at hcats hstrs
   obtain ⟨fV, fT, fA, fR⟩ := build_fields directed always v1 v2 T
   have he := build_empty directed always v1 v2 T hcats
@@ -1850,6 +1879,134 @@ theorem nested_roundtrip (cfg : DCfg) (hp : Diff.Plain cfg) (al : Align) (hashOf
   rw [hT] at hrun
   refine ⟨r, applyDelta_of_run4 bidir _ v1 r ys he hsort ?_, hpe⟩
   rw [fV, fT, fA]
+  exact hrun
+
+/-- what `_get_reverse_diff` does to a `values_changed` / `type_changes` entry -/
+def revV (c : Change) : Change := { path := c.newPath.getD c.path, oldValue := c.newValue, newValue := c.oldValue }
+def revT (c : Change) : Change :=
+  { path := c.newPath.getD c.path, oldType := c.newType, newType := c.oldType, oldValue := c.newValue, newValue := c.oldValue }
+
+theorem revV_consC (k : PyVal) (c : Change) : revV (consC k c) = consC k (revV c) := by
+  cases h : c.newPath <;> simp [revV, consC, h]
+
+theorem revT_consC (k : PyVal) (c : Change) : revT (consC k c) = consC k (revT c) := by
+  cases h : c.newPath <;> simp [revT, consC, h]
+
+theorem reverse_fields (d : DeltaD) :
+    (reverseDelta d).valuesChanged = d.valuesChanged.map revV ∧ (reverseDelta d).typeChanges = d.typeChanges.map revT ∧
+    (reverseDelta d).dictAdded = d.dictRemoved ∧ (reverseDelta d).dictRemoved = d.dictAdded := ⟨rfl, rfl, rfl, rfl⟩
+
+/-- the reversed entry of one `values_changed` at the root -/
+theorem run4_root_vc_rev (a b : PyVal) (ud : Bool) (hb : pyEq b b = true) :
+    run4 true ((catMap .valuesChanged (vcF false) [(.valuesChanged, { steps := [], t1 := some a, t2 := some b, udiff := ud })]).map revV)
+      ((catMap .typeChanges (tcF false true) [(.valuesChanged, { steps := [], t1 := some a, t2 := some b, udiff := ud })]).map revT)
+      (catMap .dictRemoved plainF [(.valuesChanged, { steps := [], t1 := some a, t2 := some b, udiff := ud })]) [] b = some a := by
+  simp [catMap, vcF, sidePath, run4, foldO, pChange, getAt, resolve, setAt, revV, verifyOK, hb]
+
+/-- the reversed entry of one `type_changes` at the root (a bidirectional payload always holds the values) -/
+theorem run4_root_tc_rev (a b : PyVal) (hb : pyEq b b = true) :
+    run4 true ((catMap .valuesChanged (vcF false) [(.typeChanges, { steps := [], t1 := some a, t2 := some b })]).map revV)
+      ((catMap .typeChanges (tcF false true) [(.typeChanges, { steps := [], t1 := some a, t2 := some b })]).map revT)
+      (catMap .dictRemoved plainF [(.typeChanges, { steps := [], t1 := some a, t2 := some b })]) [] b = some a := by
+  simp [catMap, tcF, sidePath, run4, foldO, pChange, getAt, resolve, setAt, revT, verifyOK, hb]
+
+
+set_option maxHeartbeats 1000000 in
+/-- **The way back for nested dictionaries, as pure functions**: the reversed bidirectional payload maps the second value
+to a value `==` the first, every recorded old value verified. -/
+theorem nested_main_rev {cfg : DCfg} (hp : Diff.Plain cfg) (al : Align) (hashOf : PyVal → String) :
+    ∀ (n : Nat) (v1 v2 : PyVal), sizeOf v1 ≤ n → J cfg.ignorePrivate v1 → J cfg.ignorePrivate v2 →
+      ∀ ys, ys.Perm (catMap .dictAdded plainF (diffV cfg al hashOf [] v1 v2).tree) →
+      ∃ r, run4 true ((catMap .valuesChanged (vcF false) (diffV cfg al hashOf [] v1 v2).tree).map revV)
+          ((catMap .typeChanges (tcF false true) (diffV cfg al hashOf [] v1 v2).tree).map revT)
+          (catMap .dictRemoved plainF (diffV cfg al hashOf [] v1 v2).tree) ys v2 = some r ∧ pyEq r v1 = true := by
+  intro n
+  induction n with
+  | zero => intro v1 v2 h; have := sizeOf_pos v1; omega
+  | succ n ih =>
+    intro v1 v2 hsz j1 j2 ys hys
+    have hr1 : pyEq v1 v1 = true := pyEq_self_J v1 j1
+    have hr2 : pyEq v2 v2 = true := pyEq_self_J v2 j2
+    rcases J_tree_small hp al hashOf v1 v2 j1 j2 with ⟨kvs1, kvs2, rfl, rfl, hthr⟩ | ⟨h, hb, ht, hl⟩ | ⟨ud, h⟩ | h
+    · obtain ⟨hs1, hn1, hp1, hv1⟩ := J_dict_inv j1
+      obtain ⟨hs2, hn2, hp2, hv2⟩ := J_dict_inv j2
+      obtain ⟨hV, hT, hA, hR⟩ := dict_payload hp al hashOf false true kvs1 kvs2 j1 j2 hthr
+      simp only at hV hT hA hR
+      rw [hA] at hys
+      rw [hV, hT, hR]
+      have hfk := flatKeys kvs1 kvs2 hs1 hs2 hn1 hn2
+      have eV : ((interK kvs1 kvs2).flatMap (fun k => (catMap .valuesChanged (vcF false) (diffV cfg al hashOf [] (valAt kvs1 k) (valAt kvs2 k)).tree).map (consC k))).map revV =
+          (interK kvs1 kvs2).flatMap (fun k => ((catMap .valuesChanged (vcF false) (diffV cfg al hashOf [] (valAt kvs1 k) (valAt kvs2 k)).tree).map revV).map (consC k)) := by
+        rw [List.map_flatMap]
+        apply flatMap_congr'
+        intro k _
+        rw [List.map_map, List.map_map]
+        apply List.map_congr_left
+        intro c _
+        exact revV_consC k c
+      have eT : ((interK kvs1 kvs2).flatMap (fun k => (catMap .typeChanges (tcF false true) (diffV cfg al hashOf [] (valAt kvs1 k) (valAt kvs2 k)).tree).map (consC k))).map revT =
+          (interK kvs1 kvs2).flatMap (fun k => ((catMap .typeChanges (tcF false true) (diffV cfg al hashOf [] (valAt kvs1 k) (valAt kvs2 k)).tree).map revT).map (consC k)) := by
+        rw [List.map_flatMap]
+        apply flatMap_congr'
+        intro k _
+        rw [List.map_map, List.map_map]
+        apply List.map_congr_left
+        intro c _
+        exact revT_consC k c
+      rw [eV, eT]
+      apply level_apply_gen true kvs2 kvs1 hs2 hs1 hn2 hn1
+        (fun k => pyEq_self_J _ (J_of_valAt kvs2 j2 k)) (fun k => pyEq_self_J _ (J_of_valAt kvs1 j1 k))
+        (interK kvs1 kvs2) (removedK kvs1 kvs2) (addedK kvs1 kvs2) hfk.nd_inter hfk.nd_removed hfk.nd_added
+        (fun k => (hfk.mem_inter k).trans And.comm) hfk.mem_removed hfk.mem_added
+        _ _ _ _ ?_ ?_ ys hys ?_
+      · intro k _ e he
+        exact plain_nonempty hp al hashOf _ _ (J_of_valAt kvs1 j1 k) (J_of_valAt kvs2 j2 k) .dictRemoved (Or.inr rfl) e he
+      · intro k _ e he
+        exact plain_nonempty hp al hashOf _ _ (J_of_valAt kvs1 j1 k) (J_of_valAt kvs2 j2 k) .dictAdded (Or.inl rfl) e he
+      · intro k hk ysk hysk
+        have hk1 : k ∈ kvs1.map (·.1) := ((hfk.mem_inter k).1 hk).1
+        have := valAt_size kvs1 hs1 hn1 k hk1
+        exact ih (valAt kvs1 k) (valAt kvs2 k) (by omega) (J_of_valAt kvs1 j1 k) (J_of_valAt kvs2 j2 k) ysk hysk
+    · rw [h] at hys ⊢
+      have : ys = [] := by simpa [catMap] using hys
+      subst this
+      exact ⟨v2, by simp [catMap, run4, foldO], pyEq_symm_basic v1 v2 hb ht (leafDiff_nil [] v1 v2 hb ht hl)⟩
+    · rw [h] at hys ⊢
+      have : ys = [] := by simpa [catMap] using hys
+      subst this
+      exact ⟨v1, run4_root_vc_rev v1 v2 ud hr2, hr1⟩
+    · rw [h] at hys ⊢
+      have : ys = [] := by simpa [catMap] using hys
+      subst this
+      exact ⟨v1, run4_root_tc_rev v1 v2 hr2, hr1⟩
+
+/-- **A bidirectional delta of two nested dictionaries inverts exactly**: `t1 + delta == t2` and `t2 - delta == t1`, every
+recorded old value verified, nothing logged. -/
+theorem nested_bidirectional (cfg : DCfg) (hp : Diff.Plain cfg) (al : Align) (hashOf : PyVal → String)
+    (v1 v2 : PyVal) (j1 : J cfg.ignorePrivate v1) (j2 : J cfg.ignorePrivate v2) :
+    (∃ r, applyDelta true (buildDelta false true v1 v2 (deepDiff cfg al hashOf v1 v2)) v1 = { root := r } ∧ pyEq r v2 = true) ∧
+    (∃ r, subDelta true (buildDelta false true v1 v2 (deepDiff cfg al hashOf v1 v2)) v2 = .ok { root := r } ∧ pyEq r v1 = true) := by
+  refine ⟨nested_roundtrip cfg hp al hashOf true false true (fun _ => ⟨rfl, rfl⟩) v1 v2 j1 j2, ?_⟩
+  rw [J_deepDiff hp al hashOf v1 v2 j1 j2]
+  generalize hT : (diffV cfg al hashOf [] v1 v2).tree = T
+  obtain ⟨hcats, _, hstrs⟩ := J_tree_facts hp al hashOf (sizeOf v1) v1 v2 (Nat.le_refl _) j1 j2
+  rw [hT] at hcats hstrs
+  obtain ⟨fV, fT, fA, fR⟩ := build_fields false true v1 v2 T
+  obtain ⟨e1, e2, e3, e4, e5⟩ := build_empty false true v1 v2 T hcats
+  obtain ⟨rV, rT, rA, rR⟩ := reverse_fields (buildDelta false true v1 v2 ⟨T, []⟩)
+  have he' : (reverseDelta (buildDelta false true v1 v2 ⟨T, []⟩)).setAdded = [] ∧ (reverseDelta (buildDelta false true v1 v2 ⟨T, []⟩)).setRemoved = [] ∧
+      (reverseDelta (buildDelta false true v1 v2 ⟨T, []⟩)).opcodes = [] ∧ (reverseDelta (buildDelta false true v1 v2 ⟨T, []⟩)).iterAdded = [] ∧
+      (reverseDelta (buildDelta false true v1 v2 ⟨T, []⟩)).iterRemoved = [] := by
+    simp [reverseDelta, e1, e2, e3, e4, e5]
+  obtain ⟨ys, hsort, hperm⟩ := sortPaths_strs (reverseDelta (buildDelta false true v1 v2 ⟨T, []⟩)).dictRemoved true (by rw [rR, fA]; exact hstrs)
+  obtain ⟨r, hrun, hpe⟩ := nested_main_rev hp al hashOf (sizeOf v1) v1 v2 (Nat.le_refl _) j1 j2 ys
+    (by rw [hT, ← fA, ← rR]; exact hperm)
+  rw [hT] at hrun
+  refine ⟨r, ?_, hpe⟩
+  simp only [subDelta, if_true]
+  congr 1
+  apply applyDelta_of_run4 true _ v2 r ys he' hsort
+  rw [rV, rT, rA, fV, fT, fR]
   exact hrun
 
 end Delta
